@@ -10,6 +10,7 @@ theorem skel_OAuthProxy_OAuthCallback_ok : skel_OAuthProxy_OAuthCallback = ([
   "return",
   "req.Form.Get",
   "if errorString != \"\"",
+  "fmt.Sprintf",
   "p.ErrorPage",
   "return",
   "decodeState",
@@ -72,6 +73,7 @@ theorem skel_OIDCProvider_createSession_ok : skel_OIDCProvider_createSession = (
   "case ErrMissingIDToken",
   "if !refresh",
   "return nil, errors.New(\"token response did not contain an id_token\")",
+  "errors.New",
   "case ",
   "return nil, fmt.Errorf(\"could not verify id_token: %v\", err)",
   "p.buildSessionFromClaims",
@@ -112,5 +114,127 @@ theorem skel_idTokenVerifier_Verify_ok : skel_idTokenVerifier_Verify = ([
   "v.verifyAudience",
   "return nil, err",
   "return token, err"] : List String) := rfl
+
+theorem skel_builder_Do_ok : skel_builder_Do = ([
+  "if r.result != nil",
+  "return r.result",
+  "if r.context == nil",
+  "return r.do()",
+  "r.do"] : List String) := rfl
+
+theorem skel_builder_do_ok : skel_builder_do = ([
+  "if err != nil",
+  "return r.result",
+  "DefaultHTTPClient.Do",
+  "if err != nil",
+  "return r.result",
+  "defer",
+  "io.ReadAll",
+  "if err != nil",
+  "return r.result",
+  "return r.result"] : List String) := rfl
+
+theorem skel_result_UnmarshalInto_ok : skel_result_UnmarshalInto = ([
+  "if err != nil",
+  "return err",
+  "if err != nil",
+  "json.Unmarshal",
+  "return fmt.Errorf(\"error unmarshalling body: %v\", err)",
+  "return nil"] : List String) := rfl
+
+theorem skel_result_getBodyForUnmarshal_ok : skel_result_getBodyForUnmarshal = ([
+  "if r.Error() != nil",
+  "return nil, r.Error()",
+  "if r.StatusCode() != http.StatusOK",
+  "return nil, fmt.Errorf(\"unexpected status \\\"%d\\\": %s\", r.StatusCode(), r",
+  "return r.Body(), nil"] : List String) := rfl
+
+theorem skel_OIDCProvider_redeemRefreshToken_ok : skel_OIDCProvider_redeemRefreshToken = ([
+  "if err != nil",
+  "return err",
+  "time.Now().Add",
+  "c.TokenSource(ctx, t).Token",
+  "c.TokenSource",
+  "if err != nil",
+  "return fmt.Errorf(\"failed to get token: %v\", err)",
+  "p.createSession",
+  "if err != nil",
+  "return fmt.Errorf(\"unable create new session state from response: %",
+  "if newSession.IDToken != \"\"",
+  "return nil"] : List String) := rfl
+
+theorem skel_OIDCProvider_Redeem_ok : skel_OIDCProvider_Redeem = ([
+  "if err != nil",
+  "return nil, err",
+  "if codeVerifier != \"\"",
+  "c.Exchange",
+  "if err != nil",
+  "return nil, fmt.Errorf(\"token exchange failed: %v\", err)",
+  "return p.createSession(ctx, token, false)",
+  "p.createSession"] : List String) := rfl
+
+theorem skel_ProviderData_buildSessionFromClaims_ok : skel_ProviderData_buildSessionFromClaims = ([
+  "if rawIDToken == \"\"",
+  "return ss, nil",
+  "if err != nil",
+  "return nil, err",
+  "if err != nil",
+  "extractor.GetClaimInto",
+  "return nil, err",
+  "if verifyEmail",
+  "extractor.GetClaimInto",
+  "if err != nil",
+  "return nil, err",
+  "if exists && !verified",
+  "return nil, fmt.Errorf(\"email in id_token (%s) isn't verified\", ss.Email",
+  "return ss, nil"] : List String) := rfl
+
+theorem skel_ProviderData_verifyIDToken_ok : skel_ProviderData_verifyIDToken = ([
+  "if strings.TrimSpace(rawIDToken) == \"\"",
+  "strings.TrimSpace",
+  "return nil, ErrMissingIDToken",
+  "if p.Verifier == nil",
+  "return nil, ErrMissingOIDCVerifier",
+  "return p.Verifier.Verify(ctx, rawIDToken)",
+  "p.Verifier.Verify"] : List String) := rfl
+
+theorem skel_claimExtractor_GetClaim_ok : skel_claimExtractor_GetClaim = ([
+  "if claim == \"\"",
+  "return nil, false, nil",
+  "if value != nil",
+  "getClaimFrom",
+  "return value, true, nil",
+  "if c.profileClaims == nil",
+  "c.loadProfileClaims",
+  "if err != nil",
+  "return nil, false, fmt.Errorf(\"failed to fetch claims from profile URL: %v\", er",
+  "if value != nil",
+  "getClaimFrom",
+  "return value, true, nil",
+  "return nil, false, nil"] : List String) := rfl
+
+theorem skel_claimExtractor_GetClaimInto_ok : skel_claimExtractor_GetClaimInto = ([
+  "c.GetClaim",
+  "if err != nil",
+  "return false, fmt.Errorf(\"could not get claim %q: %v\", claim, err)",
+  "if !exists",
+  "return false, nil",
+  "if err != nil",
+  "coerceClaim",
+  "return false, fmt.Errorf(\"could no coerce claim: %v\", err)",
+  "return true, nil"] : List String) := rfl
+
+theorem skel_CreateTokenToSessionFunc_ok : skel_CreateTokenToSessionFunc = ([
+  "return func(ctx context.Context, token string) (*sessionsapi.Sessio",
+  "func{",
+  "if err != nil",
+  "return nil, err",
+  "if err != nil",
+  "idToken.Claims",
+  "return nil, fmt.Errorf(\"failed to parse bearer token claims: %v\", err)",
+  "if claims.Email == \"\"",
+  "if claims.Verified != nil && !*claims.Verified",
+  "return nil, fmt.Errorf(\"email in id_token (%s) isn't verified\", claims.E",
+  "return newSession, nil"] : List String) := rfl
 
 end O2P.Expect.C14
